@@ -67,7 +67,15 @@ def device_hooks(h_send_fail_at=None, receive_script=None):
         ip.ctx.event('_receive', id(slf), kwargs.get('block', args[1] if len(args) > 1 else True), tuple(id(l) for l in ip.ctx.held))
         if str(slf.attrs.get('name', '')).startswith('sub'):
             return None              # the sub-ports of a MultiPort are quiet devices in these units
-        which = ip.ctx.fork(4)
+        if receive_script is not None:
+            # scripted device: the first poll takes in `receive_script` messages and then the device closes the port itself
+            # (what a socket port does when data and end-of-stream are seen in one poll); later polls do nothing
+            if len([e for e in ip.ctx.log if e[0] == '_receive']) == 1:
+                for k in range(receive_script):
+                    slf.attrs['_messages'].append(Pending(100 + k))
+                ip.call(ip.getattr(slf, 'close'), [], {})
+            return None
+        which = ip.ctx.fork(5)
         if which == 0:
             return None
         if which == 1:
@@ -75,6 +83,9 @@ def device_hooks(h_send_fail_at=None, receive_script=None):
         if which == 2:
             slf.attrs['_messages'].append(Pending(100))
             return None
+        if which == 4:
+            # takes a message in AND closes itself in the same poll
+            slf.attrs['_messages'].append(Pending(100))
         ip.call(ip.getattr(slf, 'close'), [], {})
         return None
     return {raw_function(P + 'BasePort._close'): _close, raw_function(P + 'BaseOutput._send'): _send,
@@ -285,6 +296,8 @@ class PortReceive(Contract):
         else:
             # one (arbitrary) poll happened on this path
             out['never-None-when-blocking'] = not (cfg['block'] and r is None)
+            out['a-message-the-device-took-in-is-handed-out-even-if-the-device-closed-in-the-same-poll'] = \
+                not any(isinstance(x, Pending) and x.i == 100 for x in q) and (r is None or cls_of(r) is _msg_cls() or (isinstance(r, Pending) and r.i == 100))
         out['non-blocking-never-sleeps'] = cfg['block'] or len(log_of(h, 'sleep')) == 0
         out['device-polled-under-the-lock'] = all(id(h.lock) in e[3] for e in recv)
         return out
@@ -302,6 +315,34 @@ _ITER = Harness('''
                 out.append(m)
         return out
 ''')
+
+
+_ITER2 = Harness('''
+    def do(p, how):
+        out = []
+        if how == 'iter':
+            for m in p:
+                out.append(m)
+        else:
+            while True:
+                try:
+                    out.append(p.receive())
+                except (OSError, ValueError):
+                    break
+        return out
+''')
+
+
+class _AnyIterationLater(LoopSpec):
+    """the polling loop of receive(): executed as one arbitrary iteration from the current state (the scripted device
+    closes the port in the first poll, so no path goes round)"""
+    header = 'True'
+
+    def step(self, ip, fr, st):
+        ip.ctx.oblige('receive.does-not-keep-polling-a-closed-port', False)
+
+    def inv(self, ip, fr, st):
+        return []
 
 
 @contract
@@ -325,6 +366,38 @@ class PortIterClosed(Contract):
     def ensures(self, h, cfg, a, r):
         return {'hands-out-every-pending-message-in-order-then-stops': list(r) == h.pending,
                 'device-not-polled': len(log_of(h, '_receive')) == 0}
+
+
+@contract
+class PortIterClosing(Contract):
+    """the device closes the port INSIDE a receive call, in the same poll in which it took messages in"""
+    key = 'C11.iteration-device-closes-inside-receive'
+    target = P + 'BaseInput.__iter__'
+    properties = ('C11', 'C18')
+    configs = tuple({'pending': n, 'taken': k, 'how': how} for n in (0, 1, 2) for k in (0, 1, 2, 3) for how in ('iter', 'receive-loop'))
+    loops = {(P + 'BaseInput.receive', 0): _AnyIterationLater()}
+    raises = {}
+    symbolic_only = True
+
+    def callee(self, h, cfg):
+        return _ITER2.get(h)
+
+    def hooks(self, cfg):
+        return device_hooks(receive_script=cfg['taken'])
+
+    def setup(self, h, cfg, ip):
+        ip.models.table[_time.sleep] = sleep_model
+
+    def inputs(self, h, cfg):
+        return [port(h, 'BaseIOPort', closed=False, pending=cfg['pending']), cfg['how']], {}
+
+    def ensures(self, h, cfg, a, r):
+        got = list(r)
+        want = cfg['pending'] + cfg['taken']
+        return {'every-message-taken-in-before-the-close-is-handed-out-in-order': len(got) == want and got[:cfg['pending']] == h.pending
+                and [x.i for x in got[cfg['pending']:]] == [100 + k for k in range(cfg['taken'])],
+                'ends-without-exception-and-closed': attrs_of(h.port)['closed'] is True,
+                'device-polled-once': len(log_of(h, '_receive')) == 1}
 
 
 # ====================================================================== MultiPort._receive terminates for both values of block
